@@ -441,6 +441,11 @@ from ..through_time import make_rule as _mk_tt, make_t2 as _mk_t2
 _through_time = _mk_tt("C15")
 _small_edits = _mk_t2("C15")
 
+
+def _round7_signs(ctx):
+    from .round7 import sign_only_in_first_column
+    sign_only_in_first_column(ctx, "C15-R8")
+
 RULES = [
     ("C15-R1", r1_offset_exactly_once),
     ("C15-R2", r2_validation_on_construction),
@@ -451,4 +456,5 @@ RULES = [
     ("C15-R7", r7_start_lines_and_plain_reports),
     ("C15-T1", _through_time),
     ("C15-T2", _small_edits),
+    ("C15-R8", _round7_signs),
 ]
